@@ -18,6 +18,13 @@ TRUSTED_BASE = [
     'the handler invocation of FanIn / FanOut / a Requeuer on its own router is not observable (private router) and is inserted by the check; FanOut: the Publish call on the internal GoChannel is observed through the existing gochannel.publish.snapshot stamp',
     'time: the requeuer delay is checked as a lower bound (destination entered no earlier than Delay after delivery); a message context that is done while the delay runs is generated only with Delay = 200 ms and a context cancelled before delivery, so that the select has exactly one ready case',
 ]
+TRUSTED_BASE += [
+    'round "proofs": redelivery is modelled as a source that hands a fresh message.Copy() of the original to the component after every Nack until an Ack (Relay/Redelivery.v, FreshCopy) - '
+    'that GoChannel does exactly this is Layer A (GoChannel/Sub.v, SubProofs.v: no_duplicate_without_nack, redelivery_after_nack), composed in Relay/OverGoChannel.v under the hypothesis '
+    'relay_consumer (the subscription\'s consumer settles every copy with the relay\'s verdict); tied on every run by real Requeuer / Forwarder / FanIn instances fed by a real GoChannel whose destination '
+    'fails the first 0..11 attempts of each message (error or panic) and by forwarder.Publisher -> GoChannel -> Forwarder -> GoChannel(BlockPublishUntilSubscriberAck) -> a subscriber that nacks the first 0..3 copies',
+    'in the redelivery scenarios the handler invocation is not observable (inserted), and for the Forwarder the settlement of the consumed copy inside the destination call is not sampled (the copy is internal to GoChannel)',
+]
 ASSUMPTIONS = [
     'per-message independence of handleMessage instances is structural (C02); the harness runs 1..8 messages in flight through each component, all of them inside the destination Publish call at the same time, and compares every per-message trace',
     'Requeuer counter at MaxInt64 wraps to MinInt64 (modelled as coded; theorem C17_requeuer_counter_at_maxint_refuted); a message with a nil Metadata map is never requeued (Metadata.Set panics, the Router Nacks; theorem C17_requeuer_nil_metadata_refuted); both are accepted by the acceptor as coded and reported in the design notes, not as violations',
@@ -358,6 +365,7 @@ def run(ctx):
                 'hand-written envelopes valid in unusual ways (permuted / unknown / duplicate / differently-cased fields, nulls, only a topic, duplicate metadata keys) and 17 kinds of malformed or invalid ones '
                 '(truncated at a random byte, wrong field types, not base64, missing / empty / null topic, non-JSON, trailing garbage); messages: nil / empty / up to 50 metadata keys, empty key, empty value, unicode, '
                 'keys that collide with or are prefixes/extensions of the requeuer key, 30 retries-counter spellings (missing, 0, -1, +7, 007, blanks, hex, MaxInt64, MinInt64, out of range, non-ASCII digits); '
+                'redelivery: Requeuer / Forwarder / FanIn (3 source topics) behind a REAL GoChannel source, destination failing the first 0..11 attempts per message, 1..8 messages in flight, and a full chain Publisher->GoChannel->Forwarder->GoChannel->nacking subscriber; '
                 'requeuer topic from a constant / a metadata key (also the counter key itself) / always failing, Delay 0 or 200 ms with live or cancelled message context; NewFanIn / NewRequeuer configurations. '
                 'non-trivial = distinct (component, input class, destination behaviour, number of publishes, settlement, configuration, counter class, metadata size).')
     return res
